@@ -98,7 +98,7 @@ impl RequestHandler<Rename> for RenameHandler {
             Some(cg) => cg,
             None => return Ok(None),
         };
-        let mut codegen = codegen.lock().unwrap();
+        let codegen = codegen.lock().unwrap();
         let defs = ctx.find_definitions(codegen.analysis(), &params.text_document_position);
         if defs.is_empty() {
             return Ok(None);
@@ -143,8 +143,10 @@ impl RequestHandler<Rename> for RenameHandler {
                         })
                         .collect::<HashMap<_, _>>();
 
-                    // Now, rename the actual symbol
-                    codegen.symbols_mut().rename(
+                    // Now, rename the actual symbol. This happens in a copy of the symbol table, since the request only asks
+                    // which edits a rename would take: nothing is renamed until the client has applied those edits.
+                    let mut symbols = codegen.symbols().clone();
+                    symbols.rename(
                         location.parent_scope,
                         def_symbol_nx,
                         Identifier::from(params.new_name.as_str()),
@@ -154,7 +156,7 @@ impl RequestHandler<Rename> for RenameHandler {
                     // (other paths may exist due to imports)
                     for (dl, (steps, _)) in steps.iter() {
                         if let Some(QueryTraversalStep::Symbol(nx)) = steps.last() {
-                            codegen.symbols_mut().rename(
+                            symbols.rename(
                                 dl.parent_scope,
                                 *nx,
                                 Identifier::from(params.new_name.as_str()),
@@ -167,8 +169,7 @@ impl RequestHandler<Rename> for RenameHandler {
                         .into_iter()
                         .filter_map(|(dl, (query_traversal_steps, old_path))| {
                             let include_super = old_path.contains_super();
-                            codegen
-                                .symbols()
+                            symbols
                                 .query_steps_to_path(
                                     dl.parent_scope,
                                     &query_traversal_steps,
